@@ -101,12 +101,16 @@ pub struct C11Case {
   /// scripts per input (items only; every input completes)
   pub scripts: Vec<Vec<i64>>,
   pub take: Option<usize>,
+  /// an aggregate downstream of merge / concat / flat_map: count | sum | reduce | max
+  #[serde(default)]
+  pub agg: Option<String>,
 }
 
 pub fn c11_strategy(_ctx: &Ctx) -> BoxedStrategy<C11Case> {
   let shape = prop::sample::select(vec!["merge", "zip", "amb", "concat", "flat_map", "merge_cold", "zip_cold"]);
-  (shape, 2usize..=3, prop::collection::vec(1usize..=4, 3), prop::option::weighted(0.4, 1usize..=4), sched_strategy())
-    .prop_map(|(shape, k, lens, take, sched)| {
+  let agg = prop::option::weighted(0.35, prop::sample::select(vec!["count", "sum", "reduce", "max"]));
+  (shape, 2usize..=3, prop::collection::vec(1usize..=4, 3), prop::option::weighted(0.4, 1usize..=4), sched_strategy(), agg)
+    .prop_map(|(shape, k, lens, take, sched, agg)| {
       let scripts: Vec<Vec<Ev>> = (0..k).map(|i| unique_script(i, lens[i], Some(Ev::C))).collect();
       let items: Vec<Vec<i64>> = scripts.iter().map(|s| script_items(s)).collect();
       let hot = |i: usize| Node::Src(0, Src::Hot(i));
@@ -145,9 +149,24 @@ pub fn c11_strategy(_ctx: &Ctx) -> BoxedStrategy<C11Case> {
       if let Some(n) = take {
         root = Node::Un(Op::Take(n), Box::new(root));
       }
+      // every item comes out of merge / concat / flat_map (this property), so an aggregate
+      // over their output is the aggregate of all inputs' items (C02's definitions)
+      let agg = match (take, shape.trim_end_matches("_cold")) {
+        (None, "merge") | (None, "concat") | (None, "flat_map") => agg.map(|a| a.to_string()),
+        _ => None,
+      };
+      if let Some(a) = &agg {
+        let op = match a.as_str() {
+          "count" => Op::Count,
+          "sum" => Op::Sum,
+          "reduce" => Op::Reduce(Fold::Add),
+          _ => Op::Max,
+        };
+        root = Node::Un(op, Box::new(root));
+      }
       root.renumber();
       let case = Case { root, hots, hot_illformed: false, conn: None, conn_take: None, recorders: vec![vec![]], actions: vec![Action::Subscribe(0)] };
-      C11Case { cc: ConcCase { case, threads, sched }, shape: shape.to_string(), scripts: out_items, take }
+      C11Case { cc: ConcCase { case, threads, sched }, shape: shape.to_string(), scripts: out_items, take, agg }
     })
     .boxed()
 }
@@ -210,6 +229,20 @@ fn c11_check(_ctx: &Ctx, c: &C11Case) -> Report {
   }
   if evs.last().map(|e| e.k.clone()) != Some(Rk::C) {
     rep.fail = fail("complete is not the last notification".into());
+    return rep;
+  }
+  if let Some(a) = &c.agg {
+    rep.classes.push(format!("aggregate:{}", a));
+    let all: Vec<i64> = c.scripts.iter().flatten().copied().collect();
+    let expect = match a.as_str() {
+      "count" => all.len() as i64,
+      "sum" | "reduce" => all.iter().sum(),
+      _ => all.iter().copied().max().unwrap_or(0),
+    };
+    let flat: Vec<i64> = got.iter().map(|p| p.as_i64()).collect();
+    if flat != vec![expect] {
+      rep.fail = fail(format!("{} over all inputs' items {:?} delivered {:?}, expected [{}]", a, all, flat, expect));
+    }
     return rep;
   }
   match shape {
@@ -1026,7 +1059,7 @@ pub fn properties() -> Vec<Property> {
     },
     Property {
       id: "C11",
-      rule: "cases = 2..3 inputs with unique item scripts (1..4 items + complete) pushed by harness threads into hot sources (merge, zip, amb, flat_map outer) or played by cold sources on their own scheduler threads (merge, zip, concat, flat_map inners), optional take(n) downstream, generated schedule; oracle = conservation (multiset, per-input order, zip pairing, concat order, amb = exactly one input), exactly one complete and last, take(n) <= n; non-trivial = >= 4 thread switches",
+      rule: "cases = 2..3 inputs with unique item scripts (1..4 items + complete) pushed by harness threads into hot sources (merge, zip, amb, flat_map outer) or played by cold sources on their own scheduler threads (merge, zip, concat, flat_map inners), optional take(n) or aggregate (count / sum / reduce(+) / max over merge / concat / flat_map) downstream, generated schedule; oracle = conservation (multiset, per-input order, zip pairing, concat order, amb = exactly one input), exactly one complete and last, take(n) <= n, aggregate = the aggregate of all inputs' items; non-trivial = >= 4 thread switches",
       assumptions: vec!["schedules explored by generation, not exhaustively"],
       subs: vec![mk_sub("combinators", (800, 15_000), c11_strategy, c11_check)],
     },
